@@ -4,11 +4,42 @@ Rule: in the partition of messages::parse, for each of the 64 type values: the l
 Ok partitions, all of them with the AisMessage variant / struct named by the table and with the
 struct's message_type field being exactly bits [0,6) of the payload; every other type value has
 only Err partitions, at every length.
+
+Decode linkage (the same statement seen through AisParser::parse): on every path of the parser that
+reports a decoded message, the message is the Ok value of exactly one call of messages::parse, whose
+argument is the Ok value of exactly one call of messages::unarmor on the delivered payload - nothing
+else (no state kept between lines, no other buffer) can reach the dispatcher.
 """
 from __future__ import annotations
 from ..domains import IntSet
 from ..spec import itu
 from .common import flatten, unwrap_message
+from .fsm import get_fsm
+
+
+def decode_linkage(ctx, chk, cfg):
+    fsm = get_fsm(ctx, cfg)
+    n = 0
+    for c in fsm.cells:
+        if c.sentence is None:
+            continue
+        un = [e for e in c.calls if e[1].endswith("messages::unarmor")]
+        pa = [e for e in c.calls if e[1].endswith("messages::parse")]
+        if c.message in (None, "None"):
+            continue
+        n += 1
+        okk = len(un) == 1 and len(pa) == 1
+        arg = pa[0][2][0] if len(pa) == 1 and pa[0][2] else None
+        link = okk and arg == ("refto", ("opaque", "stub:%s#1.ok.deref" % un[0][1]))
+        msg = okk and c.message == "?<stub:%s#1.ok>" % pa[0][1]
+        data = okk and len(un[0][2]) == 2 and un[0][2][0][0] == "slice" and isinstance(un[0][2][0][1], tuple) and un[0][2][0][1][0] == "seq" \
+            and fsm.seq_name(c, un[0][2][0][1][1]) == c.delivered
+        chk.ob(link and msg and data, "C09/decode-link/%s/%d,%d/%s%s%s" % (c.result, len(un), len(pa), "L" if link else "-", "M" if msg else "-", "D" if data else "-"),
+               "decoding path [%s, %s]: the reported message must be messages::parse(unarmor(delivered payload)); found %d unarmor / %d parse calls, parse argument %r, message %s" % (
+                   cfg, c.result, len(un), len(pa), arg, c.message),
+               sample={"decode_path": c.result, "message": "parse(unarmor(delivered))"})
+    chk.ob(n >= 4, "C09/decode-link/floor/%s/%d" % (cfg, n), "decoding paths examined [%s]: %d" % (cfg, n))
+    return n
 
 
 def run(ctx, chk):
@@ -49,6 +80,7 @@ def run(ctx, chk):
                 chk.ob(not oks, "C09/any/unsupported-accepted/%d/%s" % (t, sorted(bad)),
                        "unsupported type %d [%s] yields a message (%s) instead of an error" % (t, cfg, sorted(bad)),
                        sample={"type": t, "outcome": "Err at every length", "config": cfg})
+    chk.cov["decode_paths_linked"] = sum(decode_linkage(ctx, chk, cfg) for cfg in cfgs)
     chk.cov["configs"] = cfgs
     chk.cov["programs"] = len(cfgs)
     chk.cov["type_values"] = 64
